@@ -535,9 +535,9 @@ def run(run: Run) -> int:
     quick = run.tier == "quick"
     try:
         guarded(run, "code tables", stream_codes, run, fasta, batch)
-        guarded(run, "sequences", stream_sequences, run, fasta, formula, batch, 1200 if quick else 30000, na)
+        guarded(run, "sequences", stream_sequences, run, fasta, formula, batch, 1200 if quick else 20000, na)
         guarded(run, "prefix dispatch", stream_prefix, run, fasta, formula, batch, 300 if quick else 5000)
-        guarded(run, "read_fasta", stream_fasta, run, fasta, batch, 1500 if quick else 40000)
+        guarded(run, "read_fasta", stream_fasta, run, fasta, batch, 1500 if quick else 30000)
         guarded(run, "Sequence.load/loadall", stream_files, run, fasta, batch, 200 if quick else 3000)
         batch.run()
     finally:
